@@ -386,8 +386,30 @@ def scenario_hint(job, variant, prev_lines, hops, via_json=False):
             want = run_plan(new_plan)
             absorb_views(want, 0)
             hint = hist
+            def js(v):
+                if isinstance(v, float) and v.is_integer() and abs(v) < 2 ** 53:
+                    return int(v)
+                if isinstance(v, dict):
+                    return {k: js(x) for k, x in v.items()}
+                if isinstance(v, list):
+                    return [js(x) for x in v]
+                return v
             if via_json:
                 hint = [OperationLogResponse.model_validate(json.loads(json.dumps(x))) for x in resp_json(hist)]
+                # a JSON round trip keeps VALUES, not bytes: besides Python's own (order preserving) one, the hint also travels through one
+                # that sorts the members of every object and one that writes whole floats as integers (what a JavaScript client does to
+                # 1000.0); each result must be the full run, compared as JSON.  (Outside the recorded flow: the recorder is switched off.)
+                for mode, tr in (("sorted members", lambda x: json.loads(json.dumps(x, sort_keys=True))),
+                                 ("javascript numbers", lambda x: json.loads(json.dumps(js(x))))):
+                    keep = (len(rec.viewer_calls), rec.plays)
+                    alt = run_plan_with_hint(prev_plan, [OperationLogResponse.model_validate(tr(x)) for x in resp_json(hist)], new_plan)
+                    del rec.viewer_calls[keep[0]:]
+                    if resp_json(alt) != resp_json(want):
+                        gj, wj = resp_json(alt), resp_json(want)
+                        k = next((k for k, (a, b) in enumerate(zip(gj, wj)) if a != b), min(len(gj), len(wj)))
+                        fields = [f for f in wj[k] if k < len(gj) and gj[k].get(f) != wj[k].get(f)] if k < len(wj) else []
+                        mism.append({"hop": hi, "first_differing_log": k, "differing_fields": fields, "transport": "JSON round trip with " + mode,
+                                     "previous_plan": prev_lines if hi == 0 else hops[hi - 1], "new_plan": lines, "via_json": True})
             n_before = len(rec.viewer_calls)
             got = run_plan_with_hint(prev_plan, hint, new_plan)
             # views of the re-extracted tail
